@@ -362,6 +362,13 @@ fn body_decls(out: &mut Vec<Decl>) {
     push("enum E { #[darling(skip, word)] A, B }", vec![], &[0]);
     push("#[darling(from_word = f)] enum E { A, B }", vec![], &[0]);
     push("#[darling(from_word = f)] struct S { a: u8 }", vec![], &[0]);
+    // `from_word` conflicts with unit and newtype structs only: braces / parens without fields,
+    // all-skipped bodies and wider bodies keep it
+    push("#[darling(from_word = f)] struct S {}", vec![], &[0]);
+    push("#[darling(from_word = f)] struct S { #[darling(skip)] a: u8 }", vec![], &[0]);
+    push("#[darling(from_word = f)] struct S { a: u8, b: u8, c: u8 }", vec![], &[0]);
+    push("#[darling(from_none = f)] struct S {}", vec![], &[0]);
+    push("#[darling(from_none = f)] struct S;", vec![], &[0]);
     let fw1 = "#[darling(from_word = f)] struct S;";
     push(fw1, vec![find(fw1, "f)", 0).map(|c| (c.0, c.1 - 1))], &[0]);
     let fw2 = "#[darling(from_word = f)] struct S(u8);";
